@@ -9,10 +9,8 @@ import SparseSpace.Properties.C11
 #print axioms SparseSpace.C11.romberg_degree_partial
 #print axioms SparseSpace.C11.balanced_weights_exact
 #print axioms SparseSpace.C11.balanced_weights_defined
-#print axioms SparseSpace.C11.simpson_grouped_counterexample
-#print axioms SparseSpace.C11.simpson_container_partial
-#print axioms SparseSpace.C11.simpson_fix_correct
-#print axioms SparseSpace.C11.force_balanced_two_points_counterexample
+#print axioms SparseSpace.C11.simpson_container_exact
+#print axioms SparseSpace.C11.two_point_grid_weights
 #print axioms SparseSpace.C11.init_tree_round_trip
 #print axioms SparseSpace.C11.full_tree_keeps_points
 #print axioms SparseSpace.C11.full_tree_is_full
